@@ -18,7 +18,7 @@
 #define KV_EV_BWD_BEGIN   9
 #define KV_EV_BWD_END    10
 #define KV_EV_MEET_BEGIN 11
-#define KV_EV_MEET_END   12  /*                                              y=meet z=transition         */
+#define KV_EV_MEET_END   12  /*                                              q=&max (float) y=meet z=transition */
 #define KV_EV_DETECT_TABLES 13 /* detect_alphabet: before summing            p=double DNA[128] q=double protein[128] */
 #define KV_EV_DETECT_SUMS 14 /* detect_alphabet: after summing               p=&dna_prob q=&prot_prob    */
 
